@@ -552,7 +552,7 @@ package engine
 //@   loop 1 invariant cellOk(next_state) && frozen(next_state, c0) && rdData(next_state.reader) == d0 && final_value != nil && pstate.environment != nil
 
 //@ func matchInstruction [C03 C09 C10]
-//@   requires cellOk(current_state)
+//@   requires cellOk(current_state) && i != nil
 //@   let c0 := *current_state
 //@   let d0 := rdData(current_state.reader)
 //@   modifies inferred
